@@ -13,7 +13,13 @@ PROP = {'rule': 'rapid-generated cases. history: rapid state machine over one no
          'designated allocation (annotation + scheduling hint), preemption dry run (clone state, RemovePod over a permutation of victims, '
          'Filter, reprieve AddPod/RemovePod), Reserve -> bound update -> Unreserve (bind failed client-side, persisted) -> 1-3 ordinary '
          'updates, release, refresh; non-trivial = dry run with >=3 victims, or designated pod with an event between Filter and Reserve, '
-         'or the unreserve-of-bound-pod sequence. distinct = FNV-64 fingerprint of the full history / triple.',
+         'or the unreserve-of-bound-pod sequence. reservationHistory: 1-3 reservations (Default/Aligned/Restricted) each reserving part of '
+         'one device (reserve pod delivered through the pod handler), pods scheduled through PreFilter/PreRestoreReservation/'
+         'RestoreReservation/Filter/FilterNominateReservation/Reserve as owners of a generated subset of the reservations (first matched '
+         'reservation that passes is nominated), requests aimed at reserved, reserved+free(+1); informer pods, pod/reservation deletes, '
+         'refresh; non-trivial = an owner holds more on a reserved device than was reserved, or an owner was served in a history of >=6 '
+         'events. All informer deletes are delivered either as the object or as a cache.DeletedFinalStateUnknown value. '
+         'distinct = FNV-64 fingerprint of the full history / triple.',
  'assumptions': ['GPU devices report gpu-core=100, gpu-memory-ratio=100 and gpu-memory (2^30..2^36 bytes) together, or nothing (zero/unhealthy); '
                  'RDMA/FPGA report their single resource',
                  'requests are PreFilter-valid (ValidateDeviceRequest) and carry no device hints, joint-allocation, selectors, VF requests, '
@@ -23,6 +29,9 @@ PROP = {'rule': 'rapid-generated cases. history: rapid state machine over one no
                  'unrequested view fits too (rounded up), validity (success => free >= request) uses the requested view only',
                  'events for one pod carry the allocation that was committed for it (Reserve result == annotation written by PreBind); '
                  'pod names are never reused',
+                 'with reservations the cache books reserve pod and owners on top of each other, so the over-commit clause is evaluated on the '
+                 'allocations of the live NON-reserve pods (sum <= total while no capacity was removed, and after every commit on the devices it '
+                 'touched); the ledger identities still include the reserve pods; completeness is not asserted for reservation cycles',
                  'after Unreserve of a pod whose binding was persisted, the ledger is only required to account the pod again from its next '
                  'informer event on (the Unreserve and the following updates are one atomic step of the generated history)',
                  'a pod with a designated allocation may use only the designated devices, at most the designated amount of each; the '
@@ -37,7 +46,7 @@ PROP = {'rule': 'rapid-generated cases. history: rapid state machine over one no
             'tests': [{'run': 'TestVerifC07History', 'quick': 2000, 'thorough': 8000, 'steps': 30},
                       {'run': 'TestVerifC07Allocate', 'quick': 8000, 'thorough': 50000},
                       {'run': 'TestVerifC07PluginHistory', 'quick': 2000, 'thorough': 8000, 'steps': 20},
-                      {'run': 'TestVerifC07ReservationHistory', 'quick': 2000, 'thorough': 8000, 'steps': 15}]}],
+                      {'run': 'TestVerifC07ReservationHistory', 'quick': 2000, 'thorough': 8000, 'steps': 22}]}],
  'manifest': {'technique': 'property-based testing (rapid): model-based state machine over the device cache with a ledger oracle after every '
                            'step, plus generated (inventory, usage, request) triples with a validity + completeness oracle for single allocations',
               'text': 'Generated-history search: allocate (real AutopilotAllocator/GPUAllocator, both the direct and the nodeDevice.filter path) + '
